@@ -85,10 +85,24 @@ class VProcessor(R.Processor):
 
     def __init__(self, db: DB | None):
         self.db = db
-        self.log: list = []
+        self.log: list = []  # every hook call, recorded on entry
+        self.completed: list = []  # hook calls that returned a payload
 
     def transfer(self, source, destination, materialize_as):
-        self.log.append(("transfer", source, destination, materialize_as))
+        entry = ("transfer", source, destination, materialize_as)
+        self.log.append(entry)
+        payload = self._transfer(source, destination, materialize_as)
+        self.completed.append(entry)
+        return payload
+
+    def materialize(self, target, name):
+        entry = ("materialize", target, name)
+        self.log.append(entry)
+        payload = self._materialize(target, name)
+        self.completed.append(entry)
+        return payload
+
+    def _transfer(self, source, destination, materialize_as):
         if isinstance(source.engine, sql.Engine) and isinstance(destination, iteration.Engine):
             return iteration.RowSequence(self.db.run(source))
         if isinstance(source.engine, iteration.Engine) and isinstance(destination, sql.Engine):
@@ -101,17 +115,22 @@ class VProcessor(R.Processor):
             return self.db.make_table(materialize_as or "xfer", list(source.columns), rows)
         raise NotImplementedError
 
-    def materialize(self, target, name):
-        self.log.append(("materialize", target, name))
+    def _materialize(self, target, name):
         if isinstance(target.engine, iteration.Engine):
             return target.engine.execute(target).materialized()
         rows = self.db.run(target)
         return self.db.make_table(name, list(target.columns), rows)
 
 
+class InjectedFault(Exception):
+    """Raised by the fault injectors (a leaf payload that fails while it is being read, a Processor
+    hook that fails): stands for an I/O error in user code underneath the library."""
+
+
 class CountingRows(iteration.MaterializedRowIterable):
     """Leaf payload that exposes only ``__iter__`` / ``__len__`` so that every
-    access by the engine is visible to the laziness monitor."""
+    access by the engine is visible to the laziness monitor.  ``fail_at = k`` makes the next
+    iterations fail with `InjectedFault` when row k is due (k == len: after the last row)."""
 
     def __init__(self, rows, name, log):
         self._rows = rows
@@ -119,6 +138,8 @@ class CountingRows(iteration.MaterializedRowIterable):
         self.log = log
         self.starts = 0
         self.pulls = 0
+        self.fail_at = None
+        self.faults = 0
 
     def __len__(self):
         return len(self._rows)
@@ -126,9 +147,39 @@ class CountingRows(iteration.MaterializedRowIterable):
     def __iter__(self):
         self.starts += 1
         self.log.append(("start", self.name))
-        for r in self._rows:
+        for i, r in enumerate(self._rows):
+            if self.fail_at is not None and i >= self.fail_at:
+                self.faults += 1
+                raise InjectedFault(f"reading row {i} of {self.name}")
             self.pulls += 1
             yield r
+        if self.fail_at is not None:
+            self.faults += 1
+            raise InjectedFault(f"closing {self.name}")
+
+
+class FaultyProcessor(VProcessor):
+    """A Processor whose ``fail_at``-th hook call fails before doing anything."""
+
+    def __init__(self, db, fail_at):
+        super().__init__(db)
+        self.fail_at = fail_at
+        self.ncalls = 0
+        self.fired = False
+
+    def _maybe_fail(self, what):
+        self.ncalls += 1
+        if self.ncalls == self.fail_at:
+            self.fired = True
+            raise InjectedFault(f"{what} hook call #{self.ncalls}")
+
+    def transfer(self, source, destination, materialize_as):
+        self._maybe_fail("transfer")
+        return super().transfer(source, destination, materialize_as)
+
+    def materialize(self, target, name):
+        self._maybe_fail("materialize")
+        return super().materialize(target, name)
 
 
 class BuildFailure(Exception):
